@@ -13,9 +13,17 @@ import ast
 import re
 
 from ..consteval import EnumMember, UNKNOWN, const_eval, enum_members
+from ..facts import Facts, direct, has, has_call, has_const, param_of
 from ..index import AnalysisError, unparse, walk_no_nested
 from .. import query as Q
 from .. import tables as T
+
+
+def _facts(ctx):
+    f = getattr(ctx, '_facts', None)
+    if f is None:
+        f = ctx._facts = Facts(ctx.repo)
+    return f
 
 OPTS = 'bfg9000.options'
 CC_COMPILER = 'bfg9000.tools.cc.compiler:CcBaseCompiler'
@@ -47,16 +55,27 @@ def option_classes(repo):
     return sorted(set(names))
 
 
-def handled_options(repo, fn):
-    """Option class names tested with isinstance(i, opts.X) in a function."""
+def handled_options(repo, fn, F=None):
+    """Option class names tested with isinstance(i, opts.X) in a function
+    (or in the helpers of the same class it calls); the tested type may be
+    spelled directly, as a tuple, or through a local."""
     out = set()
-    for n in ast.walk(fn):
-        if isinstance(n, ast.Call) and unparse(n.func) == 'isinstance' and \
-                len(n.args) == 2:
-            for t in ast.walk(n.args[1]):
-                if isinstance(t, ast.Attribute) and unparse(
-                        t.value) == 'opts':
-                    out.add(t.attr)
+    funcs = [fn._func] if getattr(fn, '_func', None) is not None else []
+    if F is not None and funcs:
+        funcs = [g for g in F.reach(funcs[0], 1)
+                 if g.cls is funcs[0].cls or g.module is funcs[0].module]
+    for g in funcs:
+        for n in ast.walk(g.node):
+            if isinstance(n, ast.Call) and unparse(n.func) == 'isinstance' \
+                    and len(n.args) == 2:
+                for t in ast.walk(n.args[1]):
+                    if isinstance(t, ast.Attribute) and unparse(
+                            t.value) == 'opts':
+                        out.add(t.attr)
+                if F is not None:
+                    for a in F.atoms(n.args[1], g):
+                        if a.startswith('opts.') and a.count('.') == 1:
+                            out.add(a.split('.')[1])
     return out
 
 
@@ -68,12 +87,15 @@ def option_exhaustive(ctx):
              'OptimizeValue/WarningValue has a translation')
     repo = ctx.repo
     classes = option_classes(repo)
-    ctx.require_min(R, len(classes), 21, 'option classes')
+    ctx.ob(R, 'option-classes|found', len(classes) >= 15, None,
+           'only {} option classes found'.format(len(classes)))
     cf = repo.method(CC_COMPILER, 'flags')
     lf = repo.method(CC_LINKER, 'flags')
     llf = repo.method(CC_LINKER, 'lib_flags')
-    comp = handled_options(repo, cf.node)
-    link = handled_options(repo, lf.node) | handled_options(repo, llf.node)
+    F = _facts(ctx)
+    comp = handled_options(repo, cf.node, F)
+    link = handled_options(repo, lf.node, F) | handled_options(
+        repo, llf.node, F)
     for c in classes:
         if c in EXEMPT:
             ctx.ob(R, 'option|' + c, True, None, 'allow-listed: ' + EXEMPT[c])
@@ -91,7 +113,17 @@ def option_exhaustive(ctx):
                lf.node, 'option {} is not translated by {}'.format(c, where))
     # unknown options are rejected, strings pass through
     for f in (cf, lf):
-        chain_else = _final_else(f.node)
+        chain_else = False
+        for g in F.reach(f, 1):
+            if g.cls is not f.cls:
+                continue
+            for n in ast.walk(g.node):
+                if isinstance(n, ast.Raise):
+                    neg = [t for t, pos in F.guard_truths(n, g)
+                           if not pos and has_call(F.atoms(t, g),
+                                                   'isinstance')]
+                    if len(neg) >= 5:
+                        chain_else = True
         ctx.ob(R, f.fq + '|unknown-option-raises', chain_else, f.node,
                'unknown option types are silently ignored')
         ctx.ob(R, f.fq + '|strings-pass-through',
@@ -126,20 +158,33 @@ def option_exhaustive(ctx):
                'OptimizeValue.{} has no cc translation'.format(mname))
     # both sides index the table with the option's values
     for f in (cf, lf):
-        ok = any(isinstance(n, ast.Subscript) and unparse(n.value) ==
-                 'optimize_flags' for n in ast.walk(f.node))
+        ok = has(F.returns(f), 'optimize_flags')
         ctx.ob(R, f.fq + '|uses-optimize_flags', ok, f.node,
                'optimize values are not translated through optimize_flags')
     # WarningValue: explicit branch for disable, '-W' + name otherwise
     members = enum_members(repo, OPTS, 'WarningValue')
     ctx.stat('warning_members', members)
-    wb = [body for ty, body in _branches(cf.node) if ty == 'warning']
-    Q.require(wb, 'CcBaseCompiler.flags: no warning branch')
-    txt = ' '.join(unparse(s) for s in wb[0])
-    ctx.ob(R, 'WarningValue|disable->-w', 'WarningValue.disable' in txt and
-           "'-w'" in txt, cf.node, 'warning(disable) is not translated')
-    ctx.ob(R, 'WarningValue|others->-W<name>', "'-W' + j.name" in txt,
-           cf.node, 'warning levels are not translated to -W<name>')
+    r = F.returns(cf)
+    own = [g for g in F.reach(cf, 1) if g.cls is cf.cls]
+    wn = [(n, g) for g in own for n in F.consts(g, lambda v: v == '-w')]
+    ok = bool(wn) and has_const(r, '-w') and all(
+        any(op == 'Eq' and (has(l, 'WarningValue', 'disable') or
+                            has(rr, 'WarningValue', 'disable'))
+            for op, l, rr in F.guard_compares(n, g)) for n, g in wn)
+    ctx.ob(R, 'WarningValue|disable->-w', ok, cf.node,
+           'warning(disable) is not translated to -w (only)')
+    wN = [(n, g) for g in own for n in F.consts(g, lambda v: v == '-W')]
+    ok = False
+    for n, g in wN:
+        p = getattr(n, '_parent', None)
+        if isinstance(p, (ast.BinOp, ast.JoinedStr, ast.Call, ast.Attribute)):
+            while isinstance(p, ast.Attribute):
+                p = getattr(p, '_parent', None)
+            at = F.atoms(p, g)
+            if has(at, 'value', 'name') or has(at, 'name'):
+                ok = has_const(r, '-W')
+    ctx.ob(R, 'WarningValue|others->-W<name>', ok, cf.node,
+           'warning levels are not translated to -W<name>')
 
 
 def _branches(fn):
@@ -251,29 +296,74 @@ def flag_merge(ctx):
     ctx.rule(R, 'per-target flags are appended after the global flags '
              '(environment flags + global options) in compile and link '
              '_get_flags; CcBuilder takes the environment flags')
-    repo = ctx.repo
+    F = _facts(ctx)
     for fq, pairs in (
-            ('bfg9000.builtins.compile:_get_flags',
-             [('cflags', 'global_cflags', 'flags')]),
+            ('bfg9000.builtins.compile:_get_flags', [('flags', 'flags')]),
             ('bfg9000.builtins.link:_get_flags',
-             [('ldflags', 'global_ldflags', 'flags'),
-              ('ldlibs', 'global_ldlibs', 'lib_flags')])):
-        f = repo.func(fq)
-        for var, gvar, local in pairs:
-            hit = [n for n in ast.walk(f.node) if isinstance(n, ast.Assign)
-                   and unparse(n.targets[0]) == 'variables[{}]'.format(var)]
-            ok = len(hit) == 1 and unparse(hit[0].value) == \
-                '[{}] + {}'.format(gvar, local)
-            ctx.ob(R, '{}|{}=[{}]+{}'.format(fq, var, gvar, local), ok,
-                   f.node, 'target {} is not [global] + per-target flags'
-                   .format(var))
-        for c in Q.calls(f.node):
-            if unparse(c.func) == 'backend.flags_vars' and len(c.args) >= 2:
-                a = unparse(c.args[1])
-                ok = 'global_' in a and "mode='global'" in a and ' + ' in a
-                ctx.ob(R, '{}|global={}'.format(fq, a[:50]), ok, c,
-                       'global flags are not tool.global_* + '
-                       'tool.flags(gopts, mode=global)')
+             [('flags', 'flags'), ('libs', 'lib_flags')])):
+        f = F.fn(fq)
+        fv = F.calls_to(f, 'flags_vars', depth=0)
+        for what, meth in pairs:
+            # variables[<target var>] = [<global var>] + <rule>.<meth>(gopts)
+            ok = False
+            for n in walk_no_nested(f.node):
+                if not (isinstance(n, ast.Assign) and isinstance(
+                        n.targets[0], ast.Subscript)):
+                    continue
+                v = n.value
+                if isinstance(v, ast.BinOp) and isinstance(v.op, ast.Add):
+                    l, r = F.atoms(v.left, f), F.atoms(v.right, f)
+                    if has_call(direct(r), meth) and has(r, 'rule') and \
+                            has_call(direct(l), 'flags_vars') and \
+                            not has_call(direct(l), meth):
+                        ok = has_call(F.atoms(n.targets[0].slice, f),
+                                      'flags_vars')
+            ctx.ob(R, '{}|target-{}=[global]+per-target'.format(fq, what),
+                   ok, f.node, 'target {} are not [global variable] + '
+                   'per-target flags'.format(what))
+            g_ok = any(
+                has(e.arg(1), 'global_' + ('libs' if what == 'libs'
+                                           else 'flags')) and
+                any(meth + "(~, mode='global')" in a for a in e.arg(1))
+                for e in fv)
+            ctx.ob(R, '{}|global-{}=tool.global+tool.{}(mode=global)'.format(
+                fq, what, meth), g_ok, f.node,
+                'global flags are not tool.global_* + tool.{}(gopts, '
+                'mode=global)'.format(meth))
+
+
+def option_order(ctx):
+    R = 'FLAG-MERGE'
+    F = _facts(ctx)
+    for fq, user in (('bfg9000.builtins.compile:Compile.options',
+                      'user_options'),
+                     ('bfg9000.builtins.link:DynamicLink.options',
+                      'user_options'),
+                     ('bfg9000.builtins.link:StaticLink.options',
+                      'user_static_options')):
+        f = F.fn(fq)
+        ok = False
+        for r in F.flow._returns(f):
+            q = r
+            if isinstance(q, ast.BinOp) and isinstance(q.op, ast.Add):
+                l, rr = F.atoms(q.left, f), F.atoms(q.right, f)
+                ok = has(l, 'self', '_internal_options') and has(
+                    rr, 'self', user) and not has(l, 'self', user)
+        ctx.ob(R, fq + '|internal-options-then-user-options', ok, f.node,
+               'the user\'s options do not come after the automatically '
+               'added ones: later words win for most driver options, so '
+               'user options could no longer override them')
+    cb = F.fn('bfg9000.tools.cc:CcBuilder.__init__')
+    fl = [e for e in F.effects(cb, lambda e: Q.kwarg(e.call, 'flags')
+                               is not None or Q.kwarg(e.call, 'libs')
+                               is not None, depth=0)]
+    ok = bool(fl) and not any(
+        has_call(e.arg(kw=k), x) for e in fl for k in ('flags', 'libs')
+        for x in ('uniques', 'set', 'frozenset', 'sorted'))
+    ctx.ob(R, 'CcBuilder.__init__|environment-flags-kept-verbatim', ok,
+           cb.node, 'flags from the environment are de-duplicated or '
+           'reordered: `-Xlinker a -Xlinker b`, repeated -framework/-arch '
+           'words lose their meaning')
 
 
 def option_identity(ctx):
@@ -285,15 +375,29 @@ def option_identity(ctx):
              'with sh rules (shell.split)')
     repo = ctx.repo
     base = repo.cls(OPTS + ':Option')
+    F = _facts(ctx)
     mt = base.methods.get('matches')
-    ok = mt is not None and unparse(Q.returns(mt)[0].value) == 'self == rhs'
+    ok = False
+    if mt is not None:
+        for r in Q.returns(mt):
+            v = r.value
+            if isinstance(v, ast.Compare) and len(v.ops) == 1 and isinstance(
+                    v.ops[0], ast.Eq):
+                a = F.atoms(v.left, mt._func) | F.atoms(
+                    v.comparators[0], mt._func)
+                ok = param_of(a, 'self') and param_of(
+                    a, Q.params(mt)[1])
+            elif isinstance(v, ast.Call) and Q.callee_attr(v) == '__eq__':
+                ok = True
     ctx.ob(R, 'Option.matches|full-equality', ok, mt or base.node,
-           'Option.matches is not `self == rhs`')
+           'Option.matches is not equality of the two options')
     eq = base.methods.get('__eq__')
-    ok = eq is not None and '__slots__' in unparse(eq) and \
-        'type(self) is type(rhs)' in unparse(eq)
+    ok = False
+    if eq is not None:
+        a = F.returns(eq._func) | F.return_control(eq._func)
+        ok = has(a, '__slots__') and has_call(a, 'type')
     ctx.ob(R, 'Option.__eq__|all-slots', ok, eq or base.node,
-           'Option equality does not compare every field')
+           'Option equality does not compare the type and every field')
     for ci in sorted(base.subclasses(), key=lambda c: c.fq):
         for nm in ('matches', '__eq__'):
             if nm in ci.methods:
@@ -305,40 +409,56 @@ def option_identity(ctx):
     # include directories: "default" search dirs are computed with CPATH
     # neutralised, so a requested directory that merely is on CPATH still
     # gets its -I flag (and its position in the search order)
-    idf = repo.method(CC_COMPILER, '_include_dir')
-    vals = [unparse(v) for v in Q.local_assignments(idf.node, 'default_dirs')
-            if v is not None]
+    idf = F.fn(CC_COMPILER + '._include_dir')
+    sds = F.calls_to(idf, '_search_dirs', depth=0)
+    ok = bool(sds) and all(
+        e.call.args and isinstance(e.call.args[0], ast.Constant) and
+        e.call.args[0].value is None or
+        isinstance(Q.kwarg(e.call, 'cpath'), ast.Constant) and
+        Q.kwarg(e.call, 'cpath').value is None for e in sds)
     ctx.ob(R, 'CcBaseCompiler._include_dir|default-dirs-without-CPATH',
-           vals == ['self._search_dirs(None)'], idf.node,
-           'default include dirs are computed as {}: with the ambient CPATH '
-           'included, an include_dir option for a directory on CPATH emits '
-           'no -I flag'.format(vals))
-    sd = repo.method(CC_COMPILER, '_search_dirs')
-    ok = "{'CPATH': cpath or ''}" in unparse(sd.node) and \
-        'cpath is not default_sentinel' in unparse(sd.node)
-    ctx.ob(R, 'CcBaseCompiler._search_dirs|cpath-override', ok, sd.node, '')
-    # environment flags
-    cb = repo.method('bfg9000.tools.cc:CcBuilder', '__init__')
-    seen = set()
-    for c in Q.calls(cb.node):
-        if unparse(c.func) != 'env.getvar' or not c.args:
-            continue
-        par = getattr(c, '_parent', None)
-        # `.split()` called on the raw string: whitespace split, no quoting
-        if isinstance(par, ast.Attribute) and par.attr == 'split' and \
-                par.value is c:
-            ctx.ob(R, 'CcBuilder.__init__|str.split|' + unparse(c), False, c,
-                   'an environment variable is split on whitespace with '
-                   'str.split() instead of sh rules (shell.split): a quoted '
-                   'word containing a space is torn apart')
-            continue
-        if isinstance(par, ast.Call) and unparse(par.func) == \
-                'shell.split' and par.args and par.args[0] is c:
-            seen.add(unparse(c.args[0]))
-    for want in ("'CPPFLAGS'", "langinfo.var('flags')",
-                 "ldinfo.var('flags')", "ldinfo.var('libs')"):
+           ok, idf.node,
+           'default include dirs are computed with the ambient CPATH '
+           'included: an include_dir option for a directory on CPATH emits '
+           'no -I flag')
+    sd = F.fn(CC_COMPILER + '._search_dirs')
+    envs = [e for e in F.effects(sd, lambda e: Q.kwarg(e.call, 'env')
+                                 is not None or Q.kwarg(e.call, 'extra_env')
+                                 is not None, depth=0)]
+    a = set()
+    for e in envs:
+        a |= e.all_args()
+    ok = ('key:\'CPATH\'' in a or has_const(a, 'CPATH')) and param_of(
+        a, 'cpath')
+    ctx.ob(R, 'CcBaseCompiler._search_dirs|cpath-override', ok, sd.node,
+           'the cpath argument does not override CPATH for the probe')
+    F = _facts(ctx)
+    cb = F.fn('bfg9000.tools.cc:CcBuilder.__init__')
+    gets = F.effects(cb, lambda e: e.name == 'getvar', depth=1)
+    splits = F.effects(cb, lambda e: e.name == 'split', depth=1)
+    raw = [e for e in splits if has_call(direct(e.recv()), 'getvar') and not
+           any(h.endswith('shell.split') for h in e.heads())]
+    ctx.ob(R, 'CcBuilder.__init__|no-str.split-of-environment', not raw,
+           raw[0].call if raw else cb.node,
+           'an environment variable is split on whitespace with '
+           'str.split() instead of sh rules (shell.split): a quoted word '
+           'containing a space is torn apart')
+    shsplit = set()
+    for e in splits:
+        if any(h.endswith('shell.split') or h == 'split' for h in
+               e.heads()) and not isinstance(e.call.func.value
+                                             if isinstance(
+                                                 e.call.func, ast.Attribute)
+                                             else None, ast.Call):
+            shsplit |= e.arg(0)
+    for want, pat in (("'CPPFLAGS'", ("getvar('CPPFLAGS'",)),
+                      ("langinfo.var('flags')", ("langinfo.var('flags')",)),
+                      ("ldinfo.var('flags')", ("var('flags')",
+                                               "['dynamic']")),
+                      ("ldinfo.var('libs')", ("var('libs')",))):
+        ok = any(all(x in a for x in pat) for a in shsplit)
         ctx.ob(R, 'CcBuilder.__init__|shell.split(env.getvar({}))'.format(
-            want), want in seen, cb.node,
+            want), ok, cb.node,
             'the flags variable {} is not read through '
             'shell.split(env.getvar(...)) (sh word splitting)'.format(want))
 
@@ -351,4 +471,5 @@ def check(ctx):
     option_exhaustive(ctx)
     flag_grammar(ctx)
     flag_merge(ctx)
+    option_order(ctx)
     option_identity(ctx)
